@@ -11,7 +11,7 @@ for line in open(os.path.join(ROOT, "seeded", "RESULTS.tsv")).read().splitlines(
     ch, ck, tier, r = line.split("\t")
     res.setdefault(ch, []).append((ck, r))
 rows = ["| change | site | caught by (quick tier) |", "|---|---|---|"]
-for mf in sorted(glob.glob(os.path.join(ROOT, "seeded", "*", "meta.json")) + glob.glob(os.path.join(ROOT, "seeded", "*", "r2", "meta.json")) + glob.glob(os.path.join(ROOT, "seeded", "*", "r3", "meta.json"))):
+for mf in sorted(glob.glob(os.path.join(ROOT, "seeded", "*", "meta.json")) + glob.glob(os.path.join(ROOT, "seeded", "*", "r2", "meta.json")) + glob.glob(os.path.join(ROOT, "seeded", "*", "r3", "meta.json")) + glob.glob(os.path.join(ROOT, "seeded", "*", "r4", "meta.json"))):
     d = os.path.relpath(os.path.dirname(mf), os.path.join(ROOT, "seeded"))
     m = json.load(open(mf))
     for c in m["changes"]:
